@@ -3,6 +3,8 @@
 import os, subprocess, sys
 
 ROOT = os.environ.get("VERIF_ROOT", "/verif")
+# cargo output: CARGO_TARGET_DIR if set, else the directory configured in /verif/.cargo/config.toml
+TARGET = os.environ.get("CARGO_TARGET_DIR", "/verif/target")
 SIM = {"C01", "C02", "C03", "C04", "C05", "C06", "C15", "C16", "C17", "C18", "C19", "C20", "C21", "C22", "C23",
        "C24", "C25", "C26", "C27", "C28", "C29", "C30", "C31", "C32", "C33", "C35", "C36", "C37"}
 CODEC = {"C08", "C14", "C38"}
@@ -36,7 +38,7 @@ def main():
         print(b.stdout[-6000:])
         print(f"INCONCLUSIVE: build of engine {eng} failed", file=sys.stderr)
         return 2
-    exe = os.path.join(ROOT, "target", "release", eng)
+    exe = os.path.join(TARGET, "release", eng)
     r = subprocess.run([exe, pid, tier] + rest, cwd=ROOT, env=env)
     if r.returncode < 0:
         print(f"INCONCLUSIVE: engine killed by signal {-r.returncode}", file=sys.stderr)
@@ -52,7 +54,7 @@ def main():
             print(b2.stdout[-4000:])
             return max(rc, 2)
         env2 = dict(env, VERIF_EVIDENCE_SUFFIX="e2e")
-        r2 = subprocess.run([os.path.join(ROOT, "target", "release", extra), pid, tier], cwd=ROOT, env=env2)
+        r2 = subprocess.run([os.path.join(TARGET, "release", extra), pid, tier], cwd=ROOT, env=env2)
         rc2 = 2 if r2.returncode < 0 else r2.returncode
         main_p = os.path.join(ROOT, "evidence", f"{pid}.json")
         e2e_p = os.path.join(ROOT, "evidence", f"{pid}.e2e.json")
@@ -75,7 +77,7 @@ def main():
             return 1
         return max(rc, rc2)
     if extra and rest and rc == 2:
-        r2 = subprocess.run([os.path.join(ROOT, "target", "release", extra), pid, tier] + rest, cwd=ROOT, env=env)
+        r2 = subprocess.run([os.path.join(TARGET, "release", extra), pid, tier] + rest, cwd=ROOT, env=env)
         return 2 if r2.returncode < 0 else r2.returncode
     return rc
 
